@@ -81,8 +81,9 @@ def timestamp_to_sf_struct(ts: pa.Array | pa.ChunkedArray) -> pa.Array:
     tsa_without_us = pc.floor_temporal(ts, unit="second")  # type: ignore https://github.com/zen-xu/pyarrow-stubs/issues/45
     epoch = pc.divide(tsa_without_us.cast(pa.int64()), 1_000_000)  # type: ignore https://github.com/zen-xu/pyarrow-stubs/issues/44
 
-    # Calculate fractional part as nanoseconds
-    fraction = pc.multiply(pc.subsecond(ts), 1_000_000_000).cast(pa.int32())  # type: ignore
+    # Calculate fractional part as nanoseconds, using integer arithmetic because the float
+    # subsecond * 1e9 isn't integral for many microsecond values (eg: .000009) and then fails to cast
+    fraction = pc.multiply(pc.subtract(ts.cast(pa.int64()), tsa_without_us.cast(pa.int64())), 1000).cast(pa.int32())  # type: ignore
 
     if ts.type.tz:
         assert ts.type.tz == "UTC", f"Timezone {ts.type.tz} not yet supported"
